@@ -9,6 +9,8 @@ SRC=/tmp/seed_$P.out/$N; W=/tmp/seed_$P; D=/verif/seeded/$P-$N
 if [ "$N" -ge 3 ]; then SRC=/tmp/seed2_$P.out/$((N-2)); W=/tmp/seed2_$P; fi
 # round 3: seeds 5 and 6 from /tmp/seed3_<P>.out/{1,2}
 if [ "$N" -ge 5 ]; then SRC=/tmp/seed3_$P.out/$((N-4)); W=/tmp/seed3_$P; fi
+# round 4: seeds 7 and 8 from /tmp/seed4_<P>.out/{1,2}
+if [ "$N" -ge 7 ]; then SRC=/tmp/seed4_$P.out/$((N-6)); W=/tmp/seed4_$P; fi
 [ -d $D ] || { mkdir -p $D; cp $SRC/patch.diff $SRC/demo_test.go $D/; cp $SRC/notes.txt $D/ 2>/dev/null; }
 PKG=$(head -3 $D/demo_test.go | grep -oE '"[^"]+"' | head -1 | tr -d '"'); PKG=${PKG:-.}
 [ -n "${PKGDIR:-}" ] && PKG=$PKGDIR
